@@ -412,6 +412,15 @@ def chop_counts_static(asm):
     return out
 
 
+def sections_may_disagree(asm):
+    """some family holds two chopped axes whose chop lists are not the same one-section list"""
+    for fam in families(asm):
+        chopped = [asm.chops[x] for x in fam if x in asm.chops]
+        if len(chopped) >= 2 and any(len(c) > 1 for c in chopped):
+            return True
+    return False
+
+
 def direct_oracle(asm, res):
     """C01/C02 stated on the implementation's observable output. Returns None or a reason string."""
     # block index = insertion position
@@ -434,6 +443,10 @@ def direct_oracle(asm, res):
         return None if out == "undefined" else "a family has no chop but outcome is %s" % out
     if exp == "inconsistent":
         return None if out in ("inconsistent",) else "conflicting chops in a family but outcome is %s" % out
+    if out == "inconsistent" and sections_may_disagree(asm):
+        # equal totals, but a family holds chops with different section lists: since the repair of the C04 defect the
+        # consistency check also compares the section lists on shared edges; C01/C02 do not decide that case (C04 does)
+        return None
     if out != "ok":
         return "every family has agreeing chops but outcome is %s" % out
     # counts
@@ -493,7 +506,7 @@ def coq_expected(res):
 
 
 PREBUILT = ["Base/Hex.v", "Model/Propagate.v", "Model/PropagateCases.v", "Proofs/PropagateBasics.v", "Proofs/PropagateTerm.v",
-            "Proofs/PropagateInv.v", "Proofs/PropagateInit.v", "Proofs/PropagateFinal.v"]
+            "Proofs/PropagateInv.v", "Proofs/PropagateInit.v", "Proofs/PropagateShort.v", "Proofs/PropagateFinal.v"]
 
 CASE_HEADER = """From Coq Require Import List Bool Arith.
 From CB Require Import Model.Propagate Model.PropagateCases.
